@@ -13,7 +13,7 @@ import (
 )
 
 func init() {
-	register(&Rule{ID: "C03.W", Min: 60, Doc: "every scalar field of the workflow AST is written by the parser", Run: runC03W})
+	register(&Rule{ID: "C03.W", Min: 130, Doc: "every scalar field of the workflow AST is written by the parser, and every key case of a section parser keeps or acts on the value of its key", Run: runC03W})
 	register(&Rule{ID: "C03.W2", Min: 15, Doc: "no two key cases of one section parser store into the same AST field (copy-paste detector)", Run: runC03W2})
 	register(&Rule{ID: "C03.R", Min: 60, Doc: "every scalar field of the workflow AST is handed to the expression scanner by RuleExpression", Run: runC03R})
 }
@@ -149,9 +149,106 @@ func runC03W(c *Ctx) {
 			c.bad("field "+f.name, f.v.Pos(), "no parser method ever stores a value into this field: whatever the workflow contains at this key is lost and cannot be checked")
 		}
 	}
+	// Per key: a field that is written somewhere says nothing about a single key case (the scalar form of a section may
+	// store the field that the mapping form forgot). Every case of a key switch keeps what it parsed - a store into a
+	// field or an element, an assignment to a variable of the enclosing function, a return - or acts on the value in
+	// another way (reports, validates, delegates). A case that is empty, or only calls parse methods and drops what they
+	// return, accepts the key and loses its value.
+	c03KeyCases(c)
 }
 
-// C03.W2: in a `switch X.id` of a parser method, two clauses with different constant labels assign the same selector.
+func c03KeyCases(c *Ctx) {
+	p := c.P
+	info := p.info()
+	p.FuncDecls(func(_ *ast.File, d *ast.FuncDecl) {
+		if d.Recv == nil || len(d.Recv.List) == 0 || exprStr(d.Recv.List[0].Type) != "*parser" {
+			return
+		}
+		nsw := 0
+		ast.Inspect(d.Body, func(n ast.Node) bool {
+			sw, ok := n.(*ast.SwitchStmt)
+			if !ok || sw.Tag == nil {
+				return true
+			}
+			sel, ok := sw.Tag.(*ast.SelectorExpr)
+			if !ok || sel.Sel.Name != currentFieldName("workflowKeyVal.id") {
+				return true
+			}
+			nsw++
+			for _, s := range sw.Body.List {
+				cc := s.(*ast.CaseClause)
+				var labels []string
+				for _, e := range cc.List {
+					if tv := info.Types[e]; tv.Value != nil && tv.Value.Kind() == constant.String {
+						labels = append(labels, constant.StringVal(tv.Value))
+					}
+				}
+				if len(labels) == 0 {
+					continue
+				}
+				construct := fmt.Sprintf("%s|key %q of switch %s#%d", DeclName(info, d), strings.Join(labels, ","), exprStr(sw.Tag), nsw)
+				keeps, acts, dropped := "", "", ""
+				outer := func(id *ast.Ident) bool {
+					obj := info.ObjectOf(id)
+					return obj != nil && id.Name != "_" && (obj.Pos() < cc.Pos() || obj.Pos() >= cc.End())
+				}
+				for _, st := range cc.Body {
+					ast.Inspect(st, func(m ast.Node) bool {
+						switch x := m.(type) {
+						case *ast.FuncLit:
+							return false
+						case *ast.AssignStmt:
+							for _, l := range x.Lhs {
+								switch lhs := l.(type) {
+								case *ast.SelectorExpr, *ast.IndexExpr, *ast.StarExpr:
+									keeps = "stores into " + exprStr(l)
+								case *ast.Ident:
+									if outer(lhs) {
+										keeps = "assigns " + lhs.Name
+									}
+								}
+							}
+						case *ast.ReturnStmt:
+							if len(x.Results) > 0 {
+								keeps = "returns a value"
+							}
+						case *ast.IncDecStmt:
+							acts = "counts"
+						case *ast.ExprStmt:
+							call, ok := x.X.(*ast.CallExpr)
+							if !ok {
+								return true
+							}
+							fn := calleeObj(info, call)
+							if fn != nil && strings.HasPrefix(fn.Name(), "parse") && fn.Type().(*types.Signature).Results().Len() > 0 {
+								if r := fn.Type().(*types.Signature).Recv(); r != nil && typeStr(r.Type()) == "*parser" {
+									dropped = exprStr(call.Fun)
+									return true
+								}
+							}
+							acts = "calls " + exprStr(call.Fun)
+						}
+						return true
+					})
+				}
+				switch {
+				case keeps != "":
+					c.ok(construct, cc.Pos(), "the case "+keeps)
+				case acts != "":
+					c.ok(construct, cc.Pos(), "the case "+acts)
+				case dropped != "":
+					c.bad(construct, cc.Pos(), "the case calls "+dropped+" and drops what it returns: the key is accepted and its value is lost, whatever other key or form stores the same field")
+				default:
+					c.bad(construct, cc.Pos(), "the case does nothing with the value of the key: the key is accepted and its value is lost")
+				}
+			}
+			return true
+		})
+	})
+}
+
+// C03.W2: in a `switch X.id` of a parser method, two clauses with different constant labels assign the same selector or
+// the same local variable.
 func runC03W2(c *Ctx) {
 	p := c.P
 	info := p.info()
@@ -191,8 +288,18 @@ func runC03W2(c *Ctx) {
 					if !ok || len(as.Lhs) != 1 || len(as.Rhs) != 1 {
 						continue
 					}
-					lhs, ok := as.Lhs[0].(*ast.SelectorExpr)
-					if !ok {
+					// the target: a field of the node (X.f) or a local variable that keeps the value until the node is built
+					var key, what string
+					switch lhs := as.Lhs[0].(type) {
+					case *ast.SelectorExpr:
+						key, what = exprStr(lhs), exprStr(lhs)
+					case *ast.Ident:
+						obj := info.ObjectOf(lhs)
+						if obj == nil || lhs.Name == "_" {
+							continue
+						}
+						key, what = fmt.Sprintf("%s@%d", lhs.Name, obj.Pos()), "the local variable "+lhs.Name
+					default:
 						continue
 					}
 					call, ok := as.Rhs[0].(*ast.CallExpr)
@@ -203,17 +310,19 @@ func runC03W2(c *Ctx) {
 					if fn == nil || !strings.HasPrefix(fn.Name(), "parse") {
 						continue
 					}
-					key := exprStr(lhs)
 					if prev, ok := assigned[key]; ok && prev != label {
-						dup = fmt.Sprintf("%s is assigned from a parse call in case %q and again in case %q: one of the keys is stored in the wrong field", key, prev, label)
+						dup = fmt.Sprintf("%s is assigned from a parse call in case %q and again in case %q: one of the keys is stored in the wrong field", what, prev, label)
 					}
 					assigned[key] = label
 				}
 			}
-			if dup != "" {
+			switch {
+			case dup != "":
 				c.bad(construct, sw.Pos(), dup)
-			} else {
-				c.ok(construct, sw.Pos(), fmt.Sprintf("%d distinct fields assigned, each by one key", len(assigned)))
+			case len(assigned) == 0:
+				// no clause assigns the result of a parse call to a field or a local: nothing was inspected, nothing is claimed
+			default:
+				c.ok(construct, sw.Pos(), fmt.Sprintf("%d distinct fields or locals assigned, each by one key", len(assigned)))
 			}
 			return true
 		})
